@@ -61,6 +61,21 @@ macro "npb" : tactic => `(tactic| (repeat' (first
   | exact NP_castValue _ _ _ | exact NP_ofOption _ _ | exact NP_parseLit _ _ _
   | (apply NP_bind) | (apply NP_bind') | (intro _) | split | (dsimp only))))
 
+theorem NP_tsOfText (O : Oracles) (s : Bytes) : NP (tsOfText O s) := by
+  unfold tsOfText
+  exact NP_bind (NP_parseLit _ _ _) (fun p => by split <;> rfl)
+
+theorem NP_coerceTs (O : Oracles) (lv rv : Value) : NP (coerceTs O lv rv) := by
+  unfold coerceTs
+  split
+  · exact NP_bind' (NP_tsOfText _ _) (fun _ => rfl)
+  · exact NP_bind' (NP_tsOfText _ _) (fun _ => rfl)
+  · rfl
+
+theorem NP_prepCompare (O : Oracles) (lv rv : Value) : NP (prepCompare O lv rv) := by
+  unfold prepCompare
+  exact NP_bind' (NP_coerceTs _ _ _) (fun p => by split <;> rfl)
+
 mutual
 theorem NP_eval (O : Oracles) (env : Env) : ∀ (e : Expr), NP (eval O env e)
   | .value _ => by simp only [eval]; npb
@@ -68,8 +83,10 @@ theorem NP_eval (O : Oracles) (env : Env) : ∀ (e : Expr), NP (eval O env e)
   | .scoped _ _ => by simp only [eval]; npb
   | .wildcard => by simp only [eval]; npb
   | .compare _ l r => by
-    have := NP_eval O env l; have := NP_eval O env r
-    simp only [eval]; npb
+    have h1 := NP_eval O env l; have h2 := NP_eval O env r
+    simp only [eval]
+    refine NP_bind h1 (fun lv => NP_bind h2 (fun rv => NP_bind (NP_prepCompare O lv rv) (fun p => ?_)))
+    split <;> rfl
   | .nullCmp _ l r => by
     have := NP_eval O env l; have := NP_eval O env r
     simp only [eval]; npb
@@ -122,8 +139,11 @@ theorem NP_evalIn (O : Oracles) (env : Env) : ∀ (es : List Expr) (isNot : Bool
     split
     · exact h _ _ _
     · split
-      · rfl
       · exact h _ _ _
+      · refine NP_bind (NP_prepCompare O v x) (fun p => ?_)
+        split
+        · rfl
+        · exact h _ _ _
 theorem NP_evalCase (O : Oracles) (env : Env) : ∀ (cs : List (Expr × Expr)), NP (evalCase O env cs)
   | [] => by simp only [evalCase]; npb
   | (c, r) :: rest => by
